@@ -143,6 +143,12 @@ int main(int argc, char **argv)
     hx_init();
     if (argc < 3) return 2;
     if (!strcmp(argv[1], "perm")) { int r = atoi(argv[2]); perm(r, r, atoi(argv[3])); }
+    else if (!strcmp(argv[1], "order")) {   /* call history: the first permutation calls of the process start at rounds f1 (and f2), then the whole sweep over every starting round */
+        int f1 = atoi(argv[2]), f2 = atoi(argv[3]); uint8_t s[40];
+        hx_fill(s, 40, HX_P_DENSE, 7); perm_one(s, f1, "first-call", f1, 0);
+        if (f2 >= 0) { hx_fill(s, 40, HX_P_DENSE2, 8); perm_one(s, f2, "second-call", f2, 0); }
+        perm(0, 11, atoi(argv[4]));
+    }
     else if (!strcmp(argv[1], "seq")) seqs(atoi(argv[2]));
     else bytes(atoi(argv[2]));
     hx_finish();
